@@ -337,6 +337,21 @@ def L3(ctx):
         ea = EventAnalysis(prog, path_matcher(ev), stop=lambda i: prog.insts[i].key != fk).solve([root])
         m = ea.must_of(root)
         ok = m is not TOP and set(ev) <= set(m) and not ea.must_before(root, "unborrow", "wait") and not ea.must_before(root, "wait", "reborrow")
+        if not ok:
+            # the same three steps written in place (helpers merged / flattened): `guard.data = None`, the modelled wait, and
+            # `guard.data = Some(inner.lock())` - in that order on every path
+            wb = prog.fns[fk].body
+            gadt_ = "sync::mutex::MutexGuard"
+            dom_ = wb.dominators()
+            rel_ = [w["bb"] for w in prog.writers().get((gadt_, "data"), []) if w["fn"] == fk and w["kind"] == "assign" and
+                    strip(wb.expr_of_rvalue(w["stmt"]["rv"]))[0] == "agg" and strip(wb.expr_of_rvalue(w["stmt"]["rv"]))[2] == "None"]
+            rel_ += [b for (b, t, c) in prog.sites(root) if prog.callee_key(c) == ev["unborrow"]]
+            wait_ = [b for (b, t, c) in prog.sites(root) if prog.callee_key(c) == ev["wait"]]
+            take_ = [w["bb"] for w in prog.writers().get((gadt_, "data"), []) if w["fn"] == fk and w["kind"] == "assign" and
+                     mentions_call(wb.expr_of_rvalue(w["stmt"]["rv"]), "std::sync::Mutex::<T>::lock") is not None]
+            take_ += [b for (b, t, c) in prog.sites(root) if prog.callee_key(c) == ev["reborrow"]]
+            ok = bool(rel_) and bool(wait_) and bool(take_) and all(any(r in dom_[w_] for r in rel_) for w_ in wait_) and \
+                all(any(w_ in dom_[t_] for w_ in wait_) for t_ in take_) and every_path_passes(wb, take_)
         if ok:
             ctx.ok("L3", fk, "unborrow -> rt wait -> reborrow", [prog.fns[fk].loc()])
         else:
